@@ -7,6 +7,7 @@ import (
 	"fmt"
 	"io"
 	"math/rand/v2"
+	"strings"
 
 	"github.com/fluhus/biostuff/formats/fasta"
 )
@@ -216,10 +217,14 @@ func fastaShape(k *K, recs []*fasta.Fasta, text []byte) {
 }
 
 func fastaDecodeCompare(k *K, what string, recs []*fasta.Fasta, text []byte) {
+	fastaDecodeFrom(k, what, recs, bytes.NewReader(text))
+}
+
+func fastaDecodeFrom(k *K, what string, recs []*fasta.Fasta, src io.Reader) {
 	// Records are held until the iteration is over and compared only then: a
 	// reader that recycles a record's buffers for the next record is seen.
 	var held []*fasta.Fasta
-	for got, err := range fasta.Reader(bytes.NewReader(text)) {
+	for got, err := range fasta.Reader(src) {
 		if err != nil {
 			k.Failf("roundtrip", "%s: reader error at item %d: %v", what, len(held), err)
 			return
@@ -293,7 +298,7 @@ func c01Lengths(c *Ctx) {
 	for l := 0; l <= c.N(200, 2000); l++ {
 		lens = append(lens, l)
 	}
-	lens = append(lens, 239, 240, 241, 319, 320, 321, 4095, 4096, 4097, 65535, 65536, 65537, 70000)
+	lens = append(lens, 239, 240, 241, 319, 320, 321, 4095, 4096, 4097, 65535, 65536, 65537, 70000, 300000)
 	if c.Thorough {
 		for p := 4096; p <= 1<<20; p *= 2 {
 			lens = append(lens, p-1, p, p+1)
@@ -314,6 +319,28 @@ func c01Lengths(c *Ctx) {
 			alt := lay.render(r, recs)
 			fastaDecodeCompare(k, "layout "+lay.String(), recs, alt)
 			k.Count("layouts_decoded", 1)
+			if l >= 4095 {
+				// long sequences also UNWRAPPED (one line) and in lines of 64 KiB and of half the sequence, each read
+				// through every reader of the zoo (among them *bufio.Readers of 16 bytes … 1 MiB that the caller owns)
+				for _, w := range []int{1 << 30, 1 << 16, l/2 + 1} {
+					lay := fastaLayout{widths: []int{w}, crlf: w == 1<<16, noFinal: w != 1<<30}
+					alt := lay.render(r, recs)
+					for _, z := range readerZoo(r, alt, "") {
+						if strings.HasPrefix(z.name, "iotest.") && l > 70000 {
+							continue
+						}
+						src := z.mk()
+						fastaDecodeFrom(k, "layout "+lay.String()+" read from "+z.name, recs, src)
+						if cl, ok := src.(io.Closer); ok {
+							cl.Close()
+						}
+						if k.Failed() {
+							return
+						}
+						k.Count("long_layouts_through_the_reader_zoo", 1)
+					}
+				}
+			}
 			if l > 80 || (l > 0 && l%80 == 0) {
 				k.Nontrivial(text, alt)
 			}
